@@ -281,3 +281,7 @@ def run(ctx, rep, tier):
         matrix_validator(rep, F, tag)
     from . import units_rules
     units_rules.c19(ctx, rep)
+    from . import primitives
+    primitives.vector_primitives(rep, ctx.facts('default'), ctx.eff('default'), '', 'C19.R5')
+
+
